@@ -204,7 +204,7 @@ def run(ctx, ck) -> None:
             return 'scalar product' not in o.construct
         if o.rule.endswith('R-DEL'):
             # deleting a pair of shape-changing operators: the structures survive for all shapes only if the pair is the identity
-            return 'MoveAxisInverseRule' in o.construct or 'ReshapeInverseRule' in o.construct
+            return any(k in o.construct for k in ('MoveAxis', 'Reshape', 'Ravel'))
         if o.rule.endswith('R-BLK'):
             return 'product order' not in o.construct
         if o.rule.endswith('R-PTP'):
